@@ -367,6 +367,10 @@ class ProgSet:
         h.update(open(os.path.join(TOOLS, 'pt2coq.py'), 'rb').read())
         h.update(open(os.path.join(TOOLS, 'dbg2coq.py'), 'rb').read())
         h.update(open(os.path.join(COQ, 'gen', 'Pt.v'), 'rb').read())
+        for dep in ('Lift.v', 'Walk.v', 'Cases.v', 'Bytes.v'):       # the compiled program shards import these
+            f = os.path.join(COQ, 'model', dep)
+            if os.path.exists(f):
+                h.update(open(f, 'rb').read())
         for p in progs:
             h.update(p['src'].encode('utf-8'))
             h.update(b'\0')
